@@ -449,6 +449,9 @@ var c14ProcOps = []struct {
 	{"the strings ~card, ~main and components/card printed", func() string {
 		return observe(textwire.EvaluateString("{{ \"~card\" }}|{{ '~card' }}|{{ \"~main\" }}|{{ \"components/card\" }}|{{ \"~card\".len() }}", nil))
 	}},
+	// one template directory whose two files trade contents between loads (same count, same total size, same times)
+	{"load the swap tree, page = alpha", func() string { return c14SwapTree(1) }},
+	{"load the swap tree, page = bravo", func() string { return c14SwapTree(2) }},
 	{"print the slice []any{1, 2}", func() string {
 		return observe(textwire.EvaluateString("{{ v }}|{{ v[0] + 1 }}|{{ v.len() }}", map[string]any{"v": []any{1, 2}}))
 	}},
@@ -522,6 +525,34 @@ func c14Respond(t *textwire.Template, page string, data map[string]any) string {
 }
 
 // c14TreeAt makes dir the working directory and loads the tree found under its relative directory "views"
+// c14SwapTree writes the two files of swap/views in one of two arrangements, with fixed times, loads and renders them
+func c14SwapTree(v int) string {
+	os.Chdir(c14ProcRoot)
+	contents := []string{"alpha page {{ 1 }}", "bravo page {{ 2 }}"}
+	if v == 2 {
+		contents[0], contents[1] = contents[1], contents[0]
+	}
+	os.MkdirAll("swap/views", 0o755)
+	for k, name := range []string{"swap/views/page.tw", "swap/views/other.tw"} {
+		if err := os.WriteFile(name, []byte(contents[k]), 0o644); err != nil {
+			return "WRITE:" + err.Error()
+		}
+		os.Chtimes(name, fixedMtime, fixedMtime)
+	}
+	os.Chtimes("swap/views", fixedMtime, fixedMtime)
+	if err := os.Chdir("swap"); err != nil {
+		return "CHDIR:" + err.Error()
+	}
+	textwire.VerifResetConfig()
+	tpl, err := textwire.NewTemplate(&config.Config{TemplateDir: "views", TemplateExt: ".tw"})
+	if err != nil {
+		return "LOADERR:" + err.Error()
+	}
+	a, fa := tpl.String("page", nil)
+	b, fb := tpl.String("other", nil)
+	return fmt.Sprint("page=", a, "|", fa, "|other=", b, "|", fb)
+}
+
 func c14TreeAt(dir string) string {
 	os.Chdir(c14ProcRoot)
 	if err := os.Chdir(dir); err != nil {
